@@ -42,6 +42,9 @@ var Captures = map[string][]Datagram{
 	"P2.pcap": {{1, false, 1000, "hello"}, {2, false, 1010, "foo2"}, {2, true, 1020, "x"}},
 	"P3.pcap": {{0, false, 2000, "foo3"}, {3, false, 2010, "dns"}, {0, true, 2020, "baz"}},
 	"P4.pcap": {{4, false, 3000, "foo4"}},
+	// P0 is older than P1 and belongs to flow a, sent by the other endpoint: importing it after P1 rebuilds
+	// stream 0 under its id with client and server swapped ("reset" stream)
+	"P0.pcap": {{0, true, -1000, "early"}},
 }
 
 func WriteCapture(path string, dgs []Datagram) error {
